@@ -311,6 +311,18 @@ def work_chain(bins, seed, idx, tmp):
                 repo.commit()
         new_tag(older)
         observe()
+        tagc = repo.head_cid()
+        if rng.random() < 0.45 and len(repo.anc(tagc)) > 1 and repo.head[0] == "branch":
+            # release line tagged, then merged --no-ff into a line forked earlier: everything after the tag is a merge commit
+            cur = repo.head[1]
+            old = rng.choice(sorted(repo.anc(tagc) - {tagc}))
+            if repo.branch("integration", old):
+                branches.append("integration")
+                repo.checkout("integration")
+                if repo.merge(cur, force_noff=True):
+                    st["chain_only_merges_after_tag"] = st.get("chain_only_merges_after_tag", 0) + 1
+                    observe()
+                repo.checkout(cur)
         if early and rng.random() < 0.8:
             repo.checkout(early)
             repo.commit()
